@@ -1097,3 +1097,85 @@ func guardedByDeep(b *ssa.BasicBlock, polarity bool, pred func(ssa.Value) bool) 
 	}
 	return false
 }
+
+// ---------------------------------------------------------------------------------------------
+// method expressions handed to an iteration helper (`forEachValue(s.observers, couchbase.Observer.Close)`)
+
+// methodThunk: v denotes the method expression I.M of an interface (the compiler's thunk): the interface's short name
+// and the method name.
+func methodThunk(v ssa.Value) (string, string) {
+	f, ok := unwrap(v).(*ssa.Function)
+	if !ok {
+		if mc, isMC := unwrap(v).(*ssa.MakeClosure); isMC {
+			f, ok = mc.Fn.(*ssa.Function)
+		}
+		if !ok {
+			return "", ""
+		}
+	}
+	if f.Synthetic == "" || !strings.HasSuffix(f.Name(), "$thunk") {
+		return "", ""
+	}
+	obj, isFn := f.Object().(*types.Func)
+	if !isFn {
+		return "", ""
+	}
+	sig, _ := obj.Type().(*types.Signature)
+	if sig == nil || sig.Recv() == nil {
+		return "", ""
+	}
+	if _, isI := sig.Recv().Type().Underlying().(*types.Interface); !isI {
+		return "", ""
+	}
+	return recvTypeName(sig.Recv().Type()), obj.Name()
+}
+
+// forEachApplication: the call hands an interface method expression to a module helper that ranges over a map
+// wrapper and calls the function it was handed on every value, unconditionally: "Iface.Method" — else "".
+func (w *World) forEachApplication(cc *ssa.CallCommon) string {
+	g := cc.StaticCallee()
+	if g == nil || g.Blocks == nil || !w.inModule(g) || cc.IsInvoke() {
+		return ""
+	}
+	iface, method, pi := "", "", -1
+	for i, a := range cc.Args {
+		if in, m := methodThunk(a); m != "" {
+			iface, method, pi = in, m, i
+		}
+	}
+	if pi < 0 || pi >= len(g.Params) {
+		return ""
+	}
+	fp := g.Params[pi]
+	applies := false
+	allInstrs(g, func(in ssa.Instruction) {
+		c2 := callOf(in)
+		if c2 == nil {
+			return
+		}
+		if m, _ := csmapMethod(c2); m != "Range" || len(c2.Args) != 2 {
+			return
+		}
+		cl := closureOf(c2.Args[1])
+		if cl == nil {
+			return
+		}
+		// the closure calls the handed function (captured) in its entry block, and always goes on
+		for _, x := range cl.Blocks[0].Instrs {
+			c3 := callOf(x)
+			if c3 == nil || c3.IsInvoke() || c3.StaticCallee() != nil {
+				continue
+			}
+			if _, isB := c3.Value.(*ssa.Builtin); isB {
+				continue
+			}
+			if strings.Contains(w.Origin(c3.Value), "param("+fp.Name()+")") {
+				applies = true
+			}
+		}
+	})
+	if !applies {
+		return ""
+	}
+	return iface + "." + method
+}
